@@ -212,6 +212,29 @@ class Compiler:
         self.bytecode[pos + 1] = target & 0xFF  # Low byte
         self.bytecode[pos + 2] = (target >> 8) & 0xFF  # High byte
 
+    def _emit_store_variable(self, name: str, declare: bool) -> None:
+        """Store the top of the stack into a variable (value stays on the stack).
+
+        Resolves the name like an assignment does: captured local (cell), local,
+        variable of an enclosing function (closure), global.
+        """
+        if declare and self._in_function:
+            self._add_local(name)
+        cell_slot = self._get_cell_var(name) if self._in_function else None
+        if cell_slot is not None:
+            self._emit(OpCode.STORE_CELL, cell_slot)
+            return
+        slot = self._get_local(name) if self._in_function or not declare else None
+        if slot is not None:
+            self._emit(OpCode.STORE_LOCAL, slot)
+            return
+        closure_slot = self._get_free_var(name) if not declare else None
+        if closure_slot is not None:
+            self._emit(OpCode.STORE_CLOSURE, closure_slot)
+            return
+        idx = self._add_name(name)
+        self._emit(OpCode.STORE_NAME, idx)
+
     def _new_loop_context(self, operands: int = 0) -> LoopContext:
         """Create the context of a loop, taking the label of an enclosing labeled statement."""
         label = self._pending_label
@@ -599,23 +622,10 @@ class Compiler:
             # Store key in variable
             if isinstance(node.left, VariableDeclaration):
                 decl = node.left.declarations[0]
-                name = decl.id.name
-                if self._in_function:
-                    self._add_local(name)
-                    slot = self._get_local(name)
-                    self._emit(OpCode.STORE_LOCAL, slot)
-                else:
-                    idx = self._add_name(name)
-                    self._emit(OpCode.STORE_NAME, idx)
+                self._emit_store_variable(decl.id.name, declare=True)
                 self._emit(OpCode.POP)
             elif isinstance(node.left, Identifier):
-                name = node.left.name
-                slot = self._get_local(name)
-                if slot is not None:
-                    self._emit(OpCode.STORE_LOCAL, slot)
-                else:
-                    idx = self._add_name(name)
-                    self._emit(OpCode.STORE_NAME, idx)
+                self._emit_store_variable(node.left.name, declare=False)
                 self._emit(OpCode.POP)
             elif isinstance(node.left, MemberExpression):
                 # for (obj.prop in ...) or for (obj[key] in ...)
@@ -669,23 +679,10 @@ class Compiler:
             # Store value in variable
             if isinstance(node.left, VariableDeclaration):
                 decl = node.left.declarations[0]
-                name = decl.id.name
-                if self._in_function:
-                    self._add_local(name)
-                    slot = self._get_local(name)
-                    self._emit(OpCode.STORE_LOCAL, slot)
-                else:
-                    idx = self._add_name(name)
-                    self._emit(OpCode.STORE_NAME, idx)
+                self._emit_store_variable(decl.id.name, declare=True)
                 self._emit(OpCode.POP)
             elif isinstance(node.left, Identifier):
-                name = node.left.name
-                slot = self._get_local(name)
-                if slot is not None:
-                    self._emit(OpCode.STORE_LOCAL, slot)
-                else:
-                    idx = self._add_name(name)
-                    self._emit(OpCode.STORE_NAME, idx)
+                self._emit_store_variable(node.left.name, declare=False)
                 self._emit(OpCode.POP)
             else:
                 raise NotImplementedError(
